@@ -189,6 +189,42 @@ Proof.
   - apply (rdlen_exact s v Hw).
 Qed.
 
+(* ---- equality of opaque record data inside the enums *)
+Lemma bytes_eqb_refl b : bytes_eqb b b = true.
+Proof. induction b as [|x b IH]; [reflexivity|]. cbn [bytes_eqb]. rewrite N.eqb_refl, IH. reflexivity. Qed.
+
+Lemma bytes_eqb_eq a b : bytes_eqb a b = true <-> a = b.
+Proof.
+  revert b; induction a as [|x a IH]; intros [|y b]; cbn [bytes_eqb]; split; intros H;
+    try reflexivity; try discriminate.
+  - apply andb_true_iff in H as [H1 H2]. apply N.eqb_eq in H1. apply IH in H2. congruence.
+  - injection H as -> ->. rewrite N.eqb_refl. apply IH. reflexivity.
+Qed.
+
+(* with the arm present, == on unknown data is equality of type and octets *)
+Theorem unknown_eq_spec t1 b1 t2 b2 :
+  Gen.all_eq_has_unknown_arm = true ->
+  (all_eq_unknown t1 b1 t2 b2 = true <-> t1 = t2 /\ b1 = b2).
+Proof.
+  intros H. unfold all_eq_unknown, unknown_eq. rewrite H.
+  rewrite andb_true_iff, N.eqb_eq, bytes_eqb_eq. reflexivity.
+Qed.
+
+Theorem zone_unknown_eq_spec t1 b1 t2 b2 :
+  zone_eq_unknown t1 b1 t2 b2 = true <-> t1 = t2 /\ b1 = b2.
+Proof.
+  unfold zone_eq_unknown, unknown_eq. change Gen.zone_eq_has_unknown_arm with true. cbn iota.
+  rewrite andb_true_iff, N.eqb_eq, bytes_eqb_eq. reflexivity.
+Qed.
+
+(* without it no unknown value equals itself *)
+Theorem allrecorddata_eq_unknown_refuted :
+  Gen.all_eq_has_unknown_arm = false -> forall t b, all_eq_unknown t b t b = false.
+Proof. intros H t b. unfold all_eq_unknown. rewrite H. reflexivity. Qed.
+
+Example eq_unknown_example : zone_eq_unknown 99 [1;2] 99 [1;2] = true /\ zone_eq_unknown 99 [1;2] 98 [1;2] = false.
+Proof. vm_compute. auto. Qed.
+
 (* non-vacuity of the table theorems: an MX value in the middle of a message *)
 Example table_example :
   exists s, schema_of 15 = Some s /\
